@@ -10,10 +10,10 @@ OPQ_MODELS = {
     'source': {'__getitem__': 'method:opq:ndarray', 'dtype': 'opq:sdtype', '__isinstance__': {}},
     'sarray': {'dtype': 'opq:sdtype', 'shape0': 'int:nat', '__getitem__': 'method:opq:chunk',      # caller's structured array: slicing = view
                '__isinstance__': {'np.ndarray': True}},
-    'ndarray': {'dtype': 'opq:dtype', 'ndim': 'int:nat', 'shape0': 'int:nat', 'shape_last': 'int:nat', '__getitem__': 'method:opq:ndarray',
+    'ndarray': {'dtype': 'opq:dtype', 'ndim': 'int:nat', 'size': 'int:nat', 'shape0': 'int:nat', 'shape_last': 'int:nat', '__getitem__': 'method:opq:ndarray',
                 'min': 'method:opq:scalar', 'max': 'method:opq:scalar', '__isinstance__': {'np.ndarray': True}},
     'slot': {'byteswap': 'method:opq:slot', 'tobytes': 'method:bytes', '__isinstance__': {'np.ndarray': None}},
-    'sdtype': {'names': 'opq:names', '__isinstance__': {'np.dtype': True}},
+    'sdtype': {'names': 'opq:names', 'newbyteorder': 'method:opq:sdtype', '__isinstance__': {'np.dtype': True}},
     'dtype': {'name': 'str', '__isinstance__': {'np.dtype': True}},
     'rowgen': {'__isinstance__': {}},
     'row': {'__isinstance__': {}},
@@ -85,7 +85,7 @@ NW_FIELDS = dict(SW_FIELDS, _data_source='opq:sarray')
 
 CONTRACTS.update({
  'SourceDataWrapper.load_chunk[base]': dict(
-    target='SourceDataWrapper.load_chunk', self_class='SourceDataWrapper', props=['C11', 'C03', 'C19'],
+    target='SourceDataWrapper.load_chunk', self_class='SourceDataWrapper', props=['C11', 'C03', 'C19', 'C08'],
     self_fields=dict(SW_FIELDS, _mapping=M2), params={'start': 'int', 'stop': 'int?'}, returns='opq:chunk',
     # type invariant of a constructed wrapper: every mapped dataset exists in the source (checked by determine_dtypes at construction)
     requires=["not source_missing(self._data_source, self._mapping['K0'])", "not source_missing(self._data_source, self._mapping['K1'])"],
@@ -96,7 +96,7 @@ CONTRACTS.update({
               "chunk_field_first(result, 'K0') == self._from_idx + start and chunk_field_first(result, 'K1') == self._from_idx + start and "
               "chunk_field_src(result, 'K0') == self._data_source[self._mapping['K0']] and chunk_field_src(result, 'K1') == self._data_source[self._mapping['K1']]")]),
  'NumpyDataWrapper.load_chunk': dict(
-    props=['C11', 'C03'], self_fields=NW_FIELDS, self_inv=SW_INV + ['self._to_idx <= self._data_source.shape0'],
+    props=['C11', 'C03', 'C08'], self_fields=NW_FIELDS, self_inv=SW_INV + ['self._to_idx <= self._data_source.shape0'],
     params={'start': 'int', 'stop': 'int?'}, returns='opq:chunk',
     stubs={}, raises={'ValueError': f'self._dtype != self._data_source.dtype and ({LOAD_RAISES})'},
     requires=['0 <= start', f'start <= {STOP}', f'{STOP} <= self._n_rows'],
@@ -135,7 +135,7 @@ CONTRACTS.update({
 for _k in (1, 2):
     _slots = ' + '.join(f'self._slots[{i}].byteswap().tobytes()' for i in range(_k))
     CONTRACTS[f'FrameData._make_body_bytes[{_k}-slots]'] = dict(
-        target='FrameData._make_body_bytes', props=['C03', 'C08', 'C19'],
+        target='FrameData._make_body_bytes', props=['C03', 'C08', 'C19', 'C14'],
         self_fields={'_frame': FRAME_REF, '_frame_number': 'int', '_slots': f'list[opq:slot]*{_k}'},
         params={}, returns='bytes',
         raises=dict({k: v.replace('value.', 'self._frame.') for k, v in OBN_RAISES.items()},
